@@ -129,6 +129,16 @@ def proof_step(pid, cfg, ev):
         ev["functions"] = badf or f"all {len(fns)} function bodies translated from /repo/src, unchanged"
         ev["functions_changed"] = [k for k, v in fns.items() if isinstance(v, dict) and v.get("status") == "extracted-changed"]
         mod = cfg["theorems"]
+        # a body this property's theorems are tied to and which can no longer be translated: the
+        # obligation `model function = source function` no longer checks (DESIGN.md §12.7)
+        imported = local_imports(mod)
+        mine = {k: v for k, v in fns.items() if isinstance(v, dict) and f"JubakoModel.Lemmas.Funcs{v.get('group')}" in imported}
+        ev["functions_tied_to_this_property"] = sorted(mine)
+        for k, v in sorted(mine.items()):
+            if v["status"].startswith("not-derived"):
+                res["ok"] = False
+                res["problems"].append(f"the body of `{v['fn']}` ({v['file']}) can no longer be translated ({v['status'][13:]}): "
+                                       f"Generated.{k} = model function is no longer checked against the source")
         targets = [mod, "jbkmodel"]
         rc, out, dt = run(["lake", "build"] + targets, cwd=LEAN, timeout=3000)
         ev["lake_build_s"] = round(dt, 1)
@@ -137,6 +147,14 @@ def proof_step(pid, cfg, ev):
             errs = [l for l in out.splitlines() if "error" in l][:12]
             res["problems"].append("lake build failed: " + " | ".join(errs))
             res["build_log"] = out[-6000:]
+            # a translated function body may be what no longer matches the model: look for a concrete
+            # input on which source and model functions differ (search aid, DESIGN.md §12.7)
+            if ev.get("functions_changed"):
+                rc2, out2, _ = run(["lake", "env", "lean", "--run", "Driver/FuncsDiff.lean"], cwd=LEAN, timeout=600)
+                wit = [l for l in out2.splitlines() if l.startswith("diff ")]
+                res["function_witnesses"] = wit or [f"no difference on the grids of Driver/FuncsDiff.lean (rc={rc2})"]
+                for w in wit[:6]:
+                    res["problems"].append("translated source function differs from the model function: " + w[:300])
             return res
         mods = local_imports(mod)
         # forbidden tokens
@@ -461,6 +479,8 @@ def main(argv):
                 obj["first_disagreement"] = {"case": d0["case"], "op": trunc(d0["op"]), "impl": trunc(d0["impl"]), "model": trunc(d0["model"])}
             if not pr["ok"] and "build_log" in pr:
                 obj["lake_build_log_tail"] = pr["build_log"][-3000:]
+            if pr.get("function_witnesses"):
+                obj["source_vs_model_function_witnesses"] = pr["function_witnesses"]
             path = write_replay(pid, name, obj)
             violations.append((path, " no-failing-input-found"))
 
